@@ -11,6 +11,7 @@ text and falls on character boundaries.  The renderer part (`Props/C07Render.lea
 import NaijaVerif.Props.C07Lex
 import NaijaVerif.Props.C07Parse
 import NaijaVerif.Props.C07Render
+import NaijaVerif.Props.C07Resolve
 
 namespace NaijaVerif.C07
 open NaijaVerif NaijaVerif.Lex NaijaVerif.Parse NaijaVerif.Utf8 NaijaVerif.Props.C07Lex NaijaVerif.C07Parse
@@ -69,6 +70,24 @@ theorem front_end_diagnostics_render (src file : Bytes) (h : ValidUtf8 src) (cod
   apply NaijaVerif.Props.C07Render.c07_render_front_end src file _ code msg labelMsg h
   intro d hd
   have hs := (front_end_spans_safe src h).2 d hd
+  exact ⟨hs d.span (by simp [diagSpans]), fun l hl => hs l (by simp [diagSpans, hl])⟩
+
+/-- **C07 (static checker)**: the checker model is a total structural function, and every diagnostic
+and label span it reports for the parsed program is a span of the AST — hence safe to slice with. -/
+theorem checker_diagnostic_spans_safe (src : Bytes) (h : ValidUtf8 src) :
+    ∀ d ∈ (Resolve.resolve (frontEnd src).1).diags, ∀ s ∈ diagSpans d, SafeSpan src s := by
+  intro d hd s hs
+  exact (front_end_spans_safe src h).1 s
+    (NaijaVerif.C07Resolve.resolve_diag_spans_from_ast (frontEnd src).1 d hd s hs)
+
+/-- … and the checker's diagnostics always render. -/
+theorem checker_diagnostics_render (src file : Bytes) (h : ValidUtf8 src) (code msg : Diag → Bytes)
+    (labelMsg : Diag → Nat → Bytes) :
+    Render.renderAnsi src file ((Resolve.resolve (frontEnd src).1).diags.map
+      (NaijaVerif.Props.C07Render.ofDiag code msg labelMsg)) ≠ none := by
+  apply NaijaVerif.Props.C07Render.c07_render_front_end src file _ code msg labelMsg h
+  intro d hd
+  have hs := checker_diagnostic_spans_safe src h d hd
   exact ⟨hs d.span (by simp [diagSpans]), fun l hl => hs l (by simp [diagSpans, hl])⟩
 
 /-- **Gate**: a text is executed only if the merged diagnostics hold no error — the pipeline's
